@@ -299,6 +299,7 @@ type contract struct {
 	loopAssign map[int][]string
 	assigns    []string // expressions naming objects the function may write; nil = unknown (havoc all); ["nothing"]
 	hasAssigns bool
+	assertAts  []*assertAt // ghost assertions at the call sites of a named event (value level)
 	orders     []orderRule // typestate: event A (returned without error) must precede event B on every path
 	absDivMod  bool // division/modulo by non-constants as uninterpreted functions with instance axioms
 	reads      []string // pure functions: pointer parameters whose pointee object is all the function reads (assumed)
@@ -308,6 +309,15 @@ type contract struct {
 	panicsWhen string
 	pure       bool // result is a function of the arguments and the heap rows it reads (usable as spec function)
 	line       int
+}
+
+// assertAt: `assertat <recv.path.Method> <label>: <expr>`: at every call of that method on that receiver expression in
+// the function under contract (incl. its function literals), expr must hold; expr may name the locals in scope at the
+// call and the call's arguments as arg0, arg1, ...
+type assertAt struct {
+	event string
+	cl    clause
+	seen  bool
 }
 
 type orderRule struct {
@@ -403,6 +413,13 @@ func parseContractFile(path, src string) (*contractFile, error) {
 				}
 			}
 			lastClause = nil
+		case "assertat":
+			if cur == nil || len(f) < 3 {
+				return nil, fmt.Errorf("%s:%d: bad assertat clause", path, ln+1)
+			}
+			a := &assertAt{event: f[1], cl: splitLabel(strings.TrimSpace(strings.TrimPrefix(rest("assertat"), f[1])))}
+			cur.assertAts = append(cur.assertAts, a)
+			lastClause = &a.cl
 		case "order":
 			// order <label>: <event A> before <event B>     events: <path>.<Method> | store <path>
 			r := rest("order")
